@@ -73,6 +73,12 @@ int main(int argc, char *argv[]) {
       return 1;
     }
     po::notify(vm);
+    // Refuse this here: util::stream::Sort would throw the same complaint in the middle of the
+    // pipeline, where unwinding waits forever for threads blocked on a full chain.
+    if (pipe_config.sort.total_memory < pipe_config.sort.buffer_size * 4) {
+      std::cerr << "Sorting memory " << pipe_config.sort.total_memory << " is too small for four buffers (two read and two write) of " << pipe_config.sort.buffer_size << " bytes.  Increase -S or decrease --sort_block." << std::endl;
+      return 1;
+    }
     instances_config.sort = pipe_config.sort;
     instances_config.model_read_chain_mem = instances_config.sort.buffer_size;
     instances_config.extension_write_chain_mem = instances_config.sort.total_memory;
